@@ -104,6 +104,7 @@ def run(tier, seed):
     bi += [(sp, dict(o, backward=bk, rev=True, absence=list(ab), post_remove=True, max_time=o["max_time"] + 6)) for sp, o in bsel for ab in ((1,), (2, 3, 11, 12), (0, 2, 9), (1, 30)) for bk in (False, True)]
     col.merge(stepcheck.explore(bi, MONS, 0, 0, seed=seed))
     col.merge(stepcheck.explore(F.scale_items(("TSLACK",)), MONS, 0, 0, seed=seed))  # medium-sized models (10-14 tasks / workers / machines), long absence lists
+    col.merge(stepcheck.explore(F.extra_items(("TSLACK",), calendars=True), MONS, 0, 0, seed=seed))  # other ways of building the object graph; continuations under a revised calendar
     meta = {
         "level": "model_checking",
         "rule": "3-task FS/FF(/SS) and 2-task all-kind workflows over dyadic work amounts x worker layouts (mixed skills incl. 0 and missing, solo, dedicated) "
